@@ -11,8 +11,8 @@ package main
 
 import (
 	"fmt"
-	"reflect"
 	"math/rand/v2"
+	"reflect"
 	"strings"
 
 	"go.sia.tech/core/consensus"
@@ -26,29 +26,29 @@ type tester struct {
 	c   *chaingen.Chain
 	rng *rand.Rand
 	// carrier block for the supplement route (one arbitrary-data v1 txn), rebuilt per state
-	carrier     *types.Block
-	carrierFor  types.BlockID
-	spentSC     []spentSC
-	spentSF     []spentSF
-	resolvedV2  []resolvedV2
-	revertedSC  []types.SiacoinElement
-	revertedSF  []types.SiafundElement
-	revertedCI  []types.ChainIndexElement
+	carrier    *types.Block
+	carrierFor types.BlockID
+	spentSC    []spentSC
+	spentSF    []spentSF
+	resolvedV2 []resolvedV2
+	revertedSC []types.SiacoinElement
+	revertedSF []types.SiafundElement
+	revertedCI []types.ChainIndexElement
 }
 
 type spentSC struct {
-	e types.SiacoinElement
-	x *chaingen.ExtraElem
+	e  types.SiacoinElement
+	x  *chaingen.ExtraElem
 	at uint64
 }
 type spentSF struct {
-	e types.SiafundElement
-	x *chaingen.ExtraElem
+	e  types.SiafundElement
+	x  *chaingen.ExtraElem
 	at uint64
 }
 type resolvedV2 struct {
-	e types.V2FileContractElement
-	x *chaingen.ExtraElem
+	e  types.V2FileContractElement
+	x  *chaingen.ExtraElem
 	at uint64
 }
 
@@ -185,7 +185,9 @@ func (t *tester) seMuts(se types.StateElement, other *types.StateElement, numLea
 	}
 	ms = append(ms, seMut{"proof-lengthened-zero-hash", func(s *types.StateElement) { s.MerkleProof = append(s.MerkleProof, types.Hash256{}) }})
 	if len(se.MerkleProof) > 0 {
-		ms = append(ms, seMut{"proof-lengthened-duplicate-last", func(s *types.StateElement) { s.MerkleProof = append(s.MerkleProof, s.MerkleProof[len(s.MerkleProof)-1]) }})
+		ms = append(ms, seMut{"proof-lengthened-duplicate-last", func(s *types.StateElement) {
+			s.MerkleProof = append(s.MerkleProof, s.MerkleProof[len(s.MerkleProof)-1])
+		}})
 	}
 	if other != nil && other.LeafIndex != se.LeafIndex {
 		o := *other
@@ -203,7 +205,9 @@ func (t *tester) seMuts(se types.StateElement, other *types.StateElement, numLea
 func (t *tester) testSC(cs consensus.State, e types.SiacoinElement, other *types.StateElement) {
 	// positive
 	t.expect("siacoin", "none", true, "ValidateTransactionElements", t.r1(cs, wrapSC(e.Copy())))
-	if acc, ok := t.r3(cs, func(bs *consensus.V1BlockSupplement) { bs.Transactions[0].SiacoinInputs = []types.SiacoinElement{e.Copy()} }); ok {
+	if acc, ok := t.r3(cs, func(bs *consensus.V1BlockSupplement) {
+		bs.Transactions[0].SiacoinInputs = []types.SiacoinElement{e.Copy()}
+	}); ok {
 		t.expect("siacoin", "none", true, "supplement", acc)
 	}
 	mature := e.MaturityHeight <= cs.Index.Height+1
@@ -218,8 +222,12 @@ func (t *tester) testSC(cs consensus.State, e types.SiacoinElement, other *types
 	}
 	muts := []mut{
 		{"id", func(x *types.SiacoinElement) { x.ID[3] ^= 1 }},
-		{"value+1", func(x *types.SiacoinElement) { x.SiacoinOutput.Value = x.SiacoinOutput.Value.Add(types.NewCurrency64(1)) }},
-		{"value-doubled", func(x *types.SiacoinElement) { x.SiacoinOutput.Value = x.SiacoinOutput.Value.Add(x.SiacoinOutput.Value) }},
+		{"value+1", func(x *types.SiacoinElement) {
+			x.SiacoinOutput.Value = x.SiacoinOutput.Value.Add(types.NewCurrency64(1))
+		}},
+		{"value-doubled", func(x *types.SiacoinElement) {
+			x.SiacoinOutput.Value = x.SiacoinOutput.Value.Add(x.SiacoinOutput.Value)
+		}},
 		{"value-hi-word", func(x *types.SiacoinElement) { x.SiacoinOutput.Value.Hi ^= 1 }},
 		{"address", func(x *types.SiacoinElement) { x.SiacoinOutput.Address[0] ^= 0x80 }},
 		{"maturity-height-lowered", func(x *types.SiacoinElement) {
@@ -248,7 +256,9 @@ func (t *tester) testSC(cs consensus.State, e types.SiacoinElement, other *types
 			continue // the mutation is a no-op on this value (e.g. doubling zero)
 		}
 		t.expect("siacoin", m.name, false, "ValidateTransactionElements", t.r1(cs, wrapSC(x.Copy())))
-		if acc, ok := t.r3(cs, func(bs *consensus.V1BlockSupplement) { bs.Transactions[0].SiacoinInputs = []types.SiacoinElement{x.Copy()} }); ok {
+		if acc, ok := t.r3(cs, func(bs *consensus.V1BlockSupplement) {
+			bs.Transactions[0].SiacoinInputs = []types.SiacoinElement{x.Copy()}
+		}); ok {
 			t.expect("siacoin", m.name, false, "supplement", acc)
 		}
 		// full spend: for the value/address/maturity mutations the spend is rebuilt around the claimed contents
@@ -262,7 +272,9 @@ func (t *tester) testSC(cs consensus.State, e types.SiacoinElement, other *types
 
 func (t *tester) testSF(cs consensus.State, e types.SiafundElement, other *types.StateElement) {
 	t.expect("siafund", "none", true, "ValidateTransactionElements", t.r1(cs, wrapSF(e.Copy())))
-	if acc, ok := t.r3(cs, func(bs *consensus.V1BlockSupplement) { bs.Transactions[0].SiafundInputs = []types.SiafundElement{e.Copy()} }); ok {
+	if acc, ok := t.r3(cs, func(bs *consensus.V1BlockSupplement) {
+		bs.Transactions[0].SiafundInputs = []types.SiafundElement{e.Copy()}
+	}); ok {
 		t.expect("siafund", "none", true, "supplement", acc)
 	}
 	if acc, ok := t.r2SF(cs, e.Copy()); ok {
@@ -302,7 +314,9 @@ func (t *tester) testSF(cs consensus.State, e types.SiafundElement, other *types
 			continue
 		}
 		t.expect("siafund", m.name, false, "ValidateTransactionElements", t.r1(cs, wrapSF(x.Copy())))
-		if acc, ok := t.r3(cs, func(bs *consensus.V1BlockSupplement) { bs.Transactions[0].SiafundInputs = []types.SiafundElement{x.Copy()} }); ok {
+		if acc, ok := t.r3(cs, func(bs *consensus.V1BlockSupplement) {
+			bs.Transactions[0].SiafundInputs = []types.SiafundElement{x.Copy()}
+		}); ok {
 			t.expect("siafund", m.name, false, "supplement", acc)
 		}
 		if x.SiafundOutput.Address == e.SiafundOutput.Address {
@@ -319,7 +333,9 @@ func (t *tester) testFC(cs consensus.State, e types.FileContractElement, other *
 		fill func(x types.FileContractElement) func(bs *consensus.V1BlockSupplement)
 	}{
 		{"supplement-revised", func(x types.FileContractElement) func(bs *consensus.V1BlockSupplement) {
-			return func(bs *consensus.V1BlockSupplement) { bs.Transactions[0].RevisedFileContracts = []types.FileContractElement{x.Copy()} }
+			return func(bs *consensus.V1BlockSupplement) {
+				bs.Transactions[0].RevisedFileContracts = []types.FileContractElement{x.Copy()}
+			}
 		}},
 		{"supplement-storage-proof", func(x types.FileContractElement) func(bs *consensus.V1BlockSupplement) {
 			return func(bs *consensus.V1BlockSupplement) {
@@ -327,7 +343,9 @@ func (t *tester) testFC(cs consensus.State, e types.FileContractElement, other *
 			}
 		}},
 		{"supplement-expiring", func(x types.FileContractElement) func(bs *consensus.V1BlockSupplement) {
-			return func(bs *consensus.V1BlockSupplement) { bs.ExpiringFileContracts = []types.FileContractElement{x.Copy()} }
+			return func(bs *consensus.V1BlockSupplement) {
+				bs.ExpiringFileContracts = []types.FileContractElement{x.Copy()}
+			}
 		}},
 	}
 	for _, r := range routes {
@@ -345,7 +363,9 @@ func (t *tester) testFC(cs consensus.State, e types.FileContractElement, other *
 		{"file-merkle-root", func(x *types.FileContractElement) { x.FileContract.FileMerkleRoot[1] ^= 2 }},
 		{"window-start", func(x *types.FileContractElement) { x.FileContract.WindowStart++ }},
 		{"window-end", func(x *types.FileContractElement) { x.FileContract.WindowEnd++ }},
-		{"payout", func(x *types.FileContractElement) { x.FileContract.Payout = x.FileContract.Payout.Add(types.NewCurrency64(1)) }},
+		{"payout", func(x *types.FileContractElement) {
+			x.FileContract.Payout = x.FileContract.Payout.Add(types.NewCurrency64(1))
+		}},
 		{"unlock-hash", func(x *types.FileContractElement) { x.FileContract.UnlockHash[5] ^= 4 }},
 		{"revision-number", func(x *types.FileContractElement) { x.FileContract.RevisionNumber++ }},
 	}
@@ -411,12 +431,20 @@ func (t *tester) testV2FC(cs consensus.State, e types.V2FileContractElement, oth
 		{"file-merkle-root", func(x *types.V2FileContractElement) { x.V2FileContract.FileMerkleRoot[1] ^= 2 }},
 		{"proof-height", func(x *types.V2FileContractElement) { x.V2FileContract.ProofHeight++ }},
 		{"expiration-height-lowered", func(x *types.V2FileContractElement) { x.V2FileContract.ExpirationHeight-- }},
-		{"renter-output-value", func(x *types.V2FileContractElement) { x.V2FileContract.RenterOutput.Value = x.V2FileContract.RenterOutput.Value.Add(one) }},
+		{"renter-output-value", func(x *types.V2FileContractElement) {
+			x.V2FileContract.RenterOutput.Value = x.V2FileContract.RenterOutput.Value.Add(one)
+		}},
 		{"renter-output-address", func(x *types.V2FileContractElement) { x.V2FileContract.RenterOutput.Address[2] ^= 8 }},
-		{"host-output-value", func(x *types.V2FileContractElement) { x.V2FileContract.HostOutput.Value = x.V2FileContract.HostOutput.Value.Add(one) }},
+		{"host-output-value", func(x *types.V2FileContractElement) {
+			x.V2FileContract.HostOutput.Value = x.V2FileContract.HostOutput.Value.Add(one)
+		}},
 		{"host-output-address", func(x *types.V2FileContractElement) { x.V2FileContract.HostOutput.Address[2] ^= 8 }},
-		{"missed-host-value", func(x *types.V2FileContractElement) { x.V2FileContract.MissedHostValue = x.V2FileContract.MissedHostValue.Add(one) }},
-		{"total-collateral", func(x *types.V2FileContractElement) { x.V2FileContract.TotalCollateral = x.V2FileContract.TotalCollateral.Add(one) }},
+		{"missed-host-value", func(x *types.V2FileContractElement) {
+			x.V2FileContract.MissedHostValue = x.V2FileContract.MissedHostValue.Add(one)
+		}},
+		{"total-collateral", func(x *types.V2FileContractElement) {
+			x.V2FileContract.TotalCollateral = x.V2FileContract.TotalCollateral.Add(one)
+		}},
 		{"renter-public-key", func(x *types.V2FileContractElement) { x.V2FileContract.RenterPublicKey[0] ^= 1 }},
 		{"host-public-key", func(x *types.V2FileContractElement) { x.V2FileContract.HostPublicKey[0] ^= 1 }},
 		{"revision-number", func(x *types.V2FileContractElement) { x.V2FileContract.RevisionNumber++ }},
@@ -527,7 +555,9 @@ func (t *tester) sample(cs consensus.State) {
 		e := sp.e.Copy()
 		e.StateElement = sp.x.SE.Copy()
 		t.expect("siacoin", "spent-with-maintained-proof", false, "ValidateTransactionElements", t.r1(cs, wrapSC(e.Copy())))
-		if acc, ok := t.r3(cs, func(bs *consensus.V1BlockSupplement) { bs.Transactions[0].SiacoinInputs = []types.SiacoinElement{e.Copy()} }); ok {
+		if acc, ok := t.r3(cs, func(bs *consensus.V1BlockSupplement) {
+			bs.Transactions[0].SiacoinInputs = []types.SiacoinElement{e.Copy()}
+		}); ok {
 			t.expect("siacoin", "spent-with-maintained-proof", false, "supplement", acc)
 		}
 		if e.MaturityHeight <= cs.Index.Height+1 {
@@ -566,7 +596,9 @@ func (t *tester) sample(cs consensus.State) {
 			continue
 		}
 		t.expect("siacoin", "from-reverted-branch", false, "ValidateTransactionElements", t.r1(cs, wrapSC(e.Copy())))
-		if acc, ok := t.r3(cs, func(bs *consensus.V1BlockSupplement) { bs.Transactions[0].SiacoinInputs = []types.SiacoinElement{e.Copy()} }); ok {
+		if acc, ok := t.r3(cs, func(bs *consensus.V1BlockSupplement) {
+			bs.Transactions[0].SiacoinInputs = []types.SiacoinElement{e.Copy()}
+		}); ok {
 			t.expect("siacoin", "from-reverted-branch", false, "supplement", acc)
 		}
 	}
@@ -584,6 +616,63 @@ func (t *tester) sample(cs consensus.State) {
 			t.expect("chainindex", "from-reverted-branch", false, "ValidateTransactionElements/storage-proof", t.r1(cs, wrapCI(host.Copy(), e.Copy())))
 		}
 	}
+	// genuine element followed by a forged element with the same ID elsewhere in the same supplement
+	if len(scs) > 0 {
+		e := s.SCEs[scs[t.rng.IntN(len(scs))]]
+		forged := e.Copy()
+		forged.SiacoinOutput.Value = forged.SiacoinOutput.Value.Add(types.Siacoins(7))
+		if acc, ok := t.r3(cs, func(bs *consensus.V1BlockSupplement) {
+			bs.Transactions[0].SiacoinInputs = []types.SiacoinElement{e.Copy(), forged.Copy()}
+		}); ok {
+			t.expect("siacoin", "genuine-then-forged-same-id", false, "supplement", acc)
+		}
+	}
+	if len(sfs) > 0 {
+		e := s.SFEs[sfs[t.rng.IntN(len(sfs))]]
+		forged := e.Copy()
+		forged.SiafundOutput.Value++
+		if acc, ok := t.r3(cs, func(bs *consensus.V1BlockSupplement) {
+			bs.Transactions[0].SiafundInputs = []types.SiafundElement{e.Copy(), forged.Copy()}
+		}); ok {
+			t.expect("siafund", "genuine-then-forged-same-id", false, "supplement", acc)
+		}
+	}
+	if len(fcs) > 0 {
+		e := s.FCEs[fcs[t.rng.IntN(len(fcs))]]
+		forged := e.Copy()
+		forged.FileContract.UnlockHash[3] ^= 0x40
+		forged2 := e.Copy()
+		forged2.FileContract.MissedProofOutputs = append([]types.SiacoinOutput(nil), forged2.FileContract.MissedProofOutputs...)
+		if len(forged2.FileContract.MissedProofOutputs) > 0 {
+			forged2.FileContract.MissedProofOutputs[0].Address[0] ^= 1
+		} else {
+			forged2.FileContract.WindowEnd++
+		}
+		places := []struct {
+			name string
+			fill func(bs *consensus.V1BlockSupplement)
+		}{
+			{"revised+revised", func(bs *consensus.V1BlockSupplement) {
+				bs.Transactions[0].RevisedFileContracts = []types.FileContractElement{e.Copy(), forged.Copy()}
+			}},
+			{"revised+storage-proof", func(bs *consensus.V1BlockSupplement) {
+				bs.Transactions[0].RevisedFileContracts = []types.FileContractElement{e.Copy()}
+				bs.Transactions[0].StorageProofs = []consensus.V1StorageProofSupplement{{FileContract: forged.Copy()}}
+			}},
+			{"storage-proof+expiring", func(bs *consensus.V1BlockSupplement) {
+				bs.Transactions[0].StorageProofs = []consensus.V1StorageProofSupplement{{FileContract: e.Copy()}}
+				bs.ExpiringFileContracts = []types.FileContractElement{forged2.Copy()}
+			}},
+			{"expiring+expiring", func(bs *consensus.V1BlockSupplement) {
+				bs.ExpiringFileContracts = []types.FileContractElement{e.Copy(), forged2.Copy()}
+			}},
+		}
+		for _, pl := range places {
+			if acc, ok := t.r3(cs, pl.fill); ok {
+				t.expect("filecontract", "genuine-then-forged-same-id/"+pl.name, false, "supplement", acc)
+			}
+		}
+	}
 	// fabricated element carrying a real element's position and proof
 	if len(scs) > 0 {
 		real := s.SCEs[scs[t.rng.IntN(len(scs))]]
@@ -592,9 +681,76 @@ func (t *tester) sample(cs consensus.State) {
 		if acc, ok := t.r2SC(cs, fab.Copy()); ok {
 			t.expect("siacoin", "fabricated-with-real-proof", false, "ValidateV2Transaction", acc)
 		}
-		if acc, ok := t.r3(cs, func(bs *consensus.V1BlockSupplement) { bs.Transactions[0].SiacoinInputs = []types.SiacoinElement{fab.Copy()} }); ok {
+		if acc, ok := t.r3(cs, func(bs *consensus.V1BlockSupplement) {
+			bs.Transactions[0].SiacoinInputs = []types.SiacoinElement{fab.Copy()}
+		}); ok {
 			t.expect("siacoin", "fabricated-with-real-proof", false, "supplement", acc)
 		}
+	}
+}
+
+// ephemeralFabrications appends to an accepted v2 block a spend of an "ephemeral" (in-block) parent that no
+// transaction of the block created: a random ID, and the ID of an element of ANOTHER kind created in the block at the
+// same position of its diff list (the contents claimed are those of a siacoin output the block really creates).
+func (t *tester) ephemeralFabrications(cs consensus.State, orig types.Block, bs consensus.V1BlockSupplement) {
+	if orig.V2 == nil {
+		return
+	}
+	_, au := consensus.ApplyBlock(cs, orig, bs, t.c.AncestorTimestamp(cs.Index.Height))
+	sces := au.SiacoinElementDiffs()
+	type alias struct {
+		name string
+		id   [32]byte
+	}
+	h := cs.Index.Height + 1
+	// attestation ids in block order
+	var attIDs [][32]byte
+	for _, txn := range orig.V2.Transactions {
+		id := txn.ID()
+		for i := range txn.Attestations {
+			attIDs = append(attIDs, txn.AttestationID(id, i))
+		}
+	}
+	for j, d := range sces {
+		if !d.Created || d.Spent || d.SiacoinElement.MaturityHeight > h || d.SiacoinElement.SiacoinOutput.Value.IsZero() {
+			continue
+		}
+		l := t.c.W.Locks[d.SiacoinElement.SiacoinOutput.Address]
+		if l == nil || !l.SpendableV2(cs.Index.Height, chaingen.Median(cs)) {
+			continue
+		}
+		var al []alias
+		al = append(al, alias{"never-created-id", [32]byte{0xEE, byte(j), byte(h)}})
+		if sf := au.SiafundElementDiffs(); j < len(sf) && sf[j].Created {
+			al = append(al, alias{"id-of-siafund-element-at-same-diff-index", sf[j].SiafundElement.ID})
+		}
+		if fc := au.FileContractElementDiffs(); j < len(fc) && fc[j].Created {
+			al = append(al, alias{"id-of-v1-contract-at-same-diff-index", fc[j].FileContractElement.ID})
+		}
+		if fc := au.V2FileContractElementDiffs(); j < len(fc) && fc[j].Created {
+			al = append(al, alias{"id-of-v2-contract-at-same-diff-index", fc[j].V2FileContractElement.ID})
+		}
+		if j < len(attIDs) {
+			al = append(al, alias{"id-of-attestation-at-same-diff-index", attIDs[j]})
+		}
+		for _, a := range al {
+			fab := types.SiacoinElement{ID: a.id, StateElement: types.StateElement{LeafIndex: types.UnassignedLeafIndex}, SiacoinOutput: d.SiacoinElement.SiacoinOutput, MaturityHeight: d.SiacoinElement.MaturityHeight}
+			blk := chaingen.CloneBlock(orig)
+			blk.V2.Transactions = append(blk.V2.Transactions, t.c.NewV2Spend(cs, fab, l, types.VoidAddress))
+			err, _ := t.c.TryVariant(&blk)
+			if chaingen.IsSealFailure(err) {
+				continue
+			}
+			want := false
+			if h < t.c.Net.N.HardforkV2.EphemeralOutputHeight && a.name != "never-created-id" {
+				// legacy window: the contents/ID of an in-block parent are not cross-checked (documented); not judged
+				t.b.Count(fmt.Sprintf("observed:legacy-window-ephemeral-alias-accepted=%v", err == nil), 1)
+				continue
+			}
+			t.expect("ephemeral-siacoin-parent", "fabricated/"+a.name, want, "ValidateBlock", err == nil)
+			t.b.Count("ephemeral_fabrications_tried", 1)
+		}
+		break // one position per block is enough
 	}
 }
 
@@ -671,12 +827,18 @@ func run(b *harness.B) {
 		t := &tester{b: b, c: c, rng: b.SubRng(fmt.Sprint("tester", i))}
 		every := b.Pick(4, 3)
 		c.OnStoreApplied = func(ev chaingen.ApplyEvent) {
+			if len(ev.Kinds) >= 3 {
+				b.Sample(chaingen.DescribeBlock(ev.Prev, ev.Block, ev.Kinds))
+			}
 			t.onApply(ev)
 			b.Count("blocks_applied", 1)
 			b.SetAdd("eras", chaingen.Era(net.N, ev.Next.Index.Height))
 			if int(ev.Next.Index.Height)%every == 0 {
 				t.sample(ev.Next)
 			}
+		}
+		c.OnAccepted = func(cs consensus.State, orig types.Block, bs consensus.V1BlockSupplement, kinds []string) {
+			t.ephemeralFabrications(cs, orig, bs)
 		}
 		c.OnRevert = func(ev chaingen.RevertEvent) {
 			// before the store processes the revert: elements created by the block being reverted, with their proofs valid on that branch
